@@ -29,6 +29,7 @@
 	BITS 64
 
    GLOBAL_FUNC  mpn_lshift
+	mov     ecx, ecx		; the count is an int argument: the upper half of its register is undefined
 	cmp     rdx, 2
 	ja      threeormore
 	jz      two
